@@ -276,7 +276,8 @@ def build_series_transformer(spec):
     if k == "imputer":
         from sktime.transformations.series.impute import Imputer
 
-        return Imputer(method=spec.get("method", "mean"), value=spec.get("value"), random_state=spec.get("random_state"))
+        return Imputer(method=spec.get("method", "mean"), value=spec.get("value"), random_state=spec.get("random_state"),
+                       missing_values=spec.get("missing_values"))
     return pools.build_transformer(spec)
 
 
@@ -285,6 +286,7 @@ SERIES_TRANSFORMER_ENUM = [
     {"kind": "acf", "n_lags": 3}, {"kind": "pacf", "n_lags": 2}, {"kind": "cos"}, {"kind": "mean"},
     {"kind": "imputer", "method": "mean"}, {"kind": "imputer", "method": "drift"}, {"kind": "imputer", "method": "linear"},
     {"kind": "imputer", "method": "nearest"}, {"kind": "imputer", "method": "ffill"}, {"kind": "imputer", "method": "random", "random_state": 3},
+    {"kind": "imputer", "method": "mean", "missing_values": -999.0}, {"kind": "imputer", "method": "linear", "missing_values": -999.0},
     {"kind": "hampel", "window_length": 5, "n_sigma": 2}, {"kind": "hampel", "window_length": 4, "n_sigma": 1},
     {"kind": "boxcox", "method": "mle"}, {"kind": "log"}, {"kind": "detrend", "degree": 1},
     {"kind": "deseason", "sp": 3, "model": "additive"}, {"kind": "deseason", "sp": 4, "model": "multiplicative"},
@@ -299,6 +301,8 @@ series_transformer_specs = st.one_of(
     st.just({"kind": "cos"}),
     st.builds(lambda m: {"kind": "imputer", "method": m}, st.sampled_from(["mean", "median", "ffill", "bfill", "pad", "backfill", "drift", "linear", "nearest"])),
     st.builds(lambda r: {"kind": "imputer", "method": "random", "random_state": r}, st.integers(0, 50)),
+    # gaps marked by a placeholder value instead of NaN
+    st.builds(lambda m: {"kind": "imputer", "method": m, "missing_values": -999.0}, st.sampled_from(["mean", "median", "ffill", "drift", "linear", "nearest"])),
     st.builds(lambda w, s: {"kind": "hampel", "window_length": w, "n_sigma": s}, st.integers(3, 7), st.sampled_from([1, 2, 3])),
     st.builds(lambda m: {"kind": "boxcox", "method": m}, st.sampled_from(["mle", "pearsonr"])),
     st.just({"kind": "log"}),
